@@ -11,11 +11,12 @@ which helper generation and which deaths has the host observed".
 import collections
 import hashlib
 import json
+import os
 
 from simkit import base, driver, world
 from simkit.canon import sort_result, is_exc, builtin_representative_differs
 
-DEATH_PHASES = ['kill_before_send', 'kill_after_send', 'truncate_reply', 'die_by_exception']
+DEATH_PHASES = ['kill_before_send', 'kill_after_send', 'truncate_reply', 'die_by_exception', 'flood_then_die']
 TRUNC_VARIANTS = [{'n': 1}, {'frac': 0.5}, {'n': 1, 'from_end': True}]
 MT0 = 1_400_000_000 * 10**9
 
@@ -28,6 +29,7 @@ def phase_variants():
         out.append(d)
     out.append({'phase': 'die_by_exception', 'exc': 'KeyboardInterrupt'})
     out.append({'phase': 'die_by_exception', 'exc': 'SystemExit'})
+    out.append({'phase': 'flood_then_die', 'lines': 1500})
     return out
 
 
@@ -168,10 +170,12 @@ def spec_of(case, reference):
             'inv': ['zombie'], 'log_fns': True, 'gc_auto': case.get('gc_auto', False)}
 
 
-def run_one(case, reference, timeout=110):
+def run_one(case, reference, timeout=60):
     root = driver.new_root('c14')
     try:
-        return driver.run_subject(spec_of(case, reference), root, hashseed=case.get('hashseed', 0), timeout=timeout)
+        spec = spec_of(case, reference)
+        spec['watchdog_s'] = max(10, timeout - 8)
+        return driver.run_subject(spec, root, hashseed=case.get('hashseed', 0), timeout=timeout)
     finally:
         driver.rm_root(root)
 
@@ -181,7 +185,10 @@ def judge(case, ref, run):
     ops = case['ops']
     stats = {'deaths': 0, 'fired': [], 'lost_scripts': 0, 'recovered_probes': 0}
     if run.timed_out:
-        return 'violation', 'hang', {'events': len(run.events)}, stats
+        nxt = ops[len(run.events)] if len(run.events) < len(ops) else {}
+        return 'violation', 'hang', {'completed_ops': len(run.events),
+                                     'hung_op': {k: v for k, v in nxt.items() if k != 'code'},
+                                     'faults': case.get('faults')}, stats
     if not run.complete:
         return 'harness_error', None, {'rc': run.rc, 'stderr': run.stderr[-1500:], 'events': len(run.events)}, stats
     if len(run.events) != len(ops) or len(ref.events) != len(ops):
@@ -305,12 +312,19 @@ class C14(base.Engine):
         ref = case.get('_ref')
         if ref is None:
             ref = run_one(case, True)
+            if ref.timed_out:
+                ref = run_one(case, True, timeout=200)
         if not ref.complete:
             return {'verdict': 'harness_error', 'detail': {'reference': True, 'rc': ref.rc, 'timed_out': ref.timed_out,
                                                            'stderr': ref.stderr[-1500:]}}
         if case.get('reference_only'):
             return {'verdict': 'ok', 'ref': ref, 'stats': {'reqs': ref.end['reqs']}}
-        run = run_one(case, False)
+        fast = case.get('_fast_hang')
+        run = run_one(case, False, timeout=40 if fast else 60)
+        if run.timed_out and not fast:
+            # a timed-out run is re-run once with a generous limit (machine load must
+            # never be reported as a hang); a second timeout is a hang
+            run = run_one(case, False, timeout=150)
         verdict, sig, detail, stats = judge(case, ref, run)
         stats['digest'] = driver.events_digest(run.events)
         return {'verdict': verdict, 'sig': sig, 'detail': detail, 'stats': stats}
@@ -354,10 +368,19 @@ class C14(base.Engine):
                                    faults=[{'phase': 'kill_after_send', 'req': max(2, s['_nreq'] // 3)},
                                            dict(v, fn='_get_info', occ=2)])
             if tier == 'thorough':
-                # 1. every single-fault point of every (non-lifecycle) scenario
-                for s in ok_scen:
-                    if s['mode'] == 'lifecycle':
-                        continue
+                # 1. every single-fault point of as many (non-lifecycle) scenarios as fit
+                #    the cap, smallest request count first
+                cap = int(os.environ.get('VERIF_C14_SWEEP_CAP', '6000'))
+                swept = []
+                total = 0
+                for s in sorted([x for x in ok_scen if x['mode'] != 'lifecycle'], key=lambda x: x['_nreq']):
+                    n = s['_nreq'] * len(phase_variants())
+                    if total + n > cap and swept:
+                        break
+                    swept.append(s)
+                    total += n
+                self.swept = [(x['id'], x['_nreq']) for x in swept]
+                for s in swept:
                     for k in range(1, s['_nreq'] + 1):
                         for v in phase_variants():
                             f = dict(v, req=k)
@@ -428,7 +451,11 @@ class C14(base.Engine):
         sig = result.get('sig')
         base_case = self.strip(case)
 
+        hang = (sig or '').startswith('hang')
+
         def fails(c):
+            if hang:
+                c = dict(c, _fast_hang=True)    # candidates: one short run; the final case is re-judged in full
             r = self.execute(c)
             return r['verdict'] == 'violation' and r.get('sig') == sig
 
@@ -444,7 +471,7 @@ class C14(base.Engine):
                     base_case = cand
                     changed = True
                     break
-        mc, used = driver.ddmin_ops(base_case, 'ops', fails, budget=40, fixup=_fixup_ops)
+        mc, used = driver.ddmin_ops(base_case, 'ops', fails, budget=16 if hang else 40, fixup=_fixup_ops)
         mr = self.execute(mc)
         if mr['verdict'] != 'violation':
             return base_case, self.execute(base_case)
@@ -498,7 +525,8 @@ class C14(base.Engine):
                     'distinct = distinct event-log digests among those',
             'samples': samples or [{'note': 'no fault fired'}],
             'exhaustive': bool(getattr(self, 'exhaustive', False)),
-            'exhaustive_scope': 'every (request index, phase variant) single-fault point of every non-lifecycle scenario'
+            'exhaustive_scope': ('every (request index, phase variant) single-fault point of scenarios %s (id, requests)'
+                                 % (getattr(self, 'swept', []),))
                                 if getattr(self, 'exhaustive', False) else 'none (seeded sample)',
             'scenarios': getattr(self, 'n_scen', 0),
             'faults_fired_by_kind': dict(fired),
